@@ -291,6 +291,13 @@ func c15Recheck(w *mon.W, id string) {
 func c15RoundTrip(w *mon.W, id string, x poly.Sequence, origin, tmp string, viaFile bool) (poly.Sequence, bool) {
 	c15Recheck(w, id)
 	x0 := deepCopy(reflect.ValueOf(x)) // the value as it was before any library call saw it
+	// what each feature of the value reports before it is written (a writer must leave the value usable)
+	beforeVals := make([]string, len(x.Features))
+	beforeOK := make([]bool, len(x.Features))
+	for i := range x.Features {
+		i := i
+		beforeOK[i] = mon.Try(func() { beforeVals[i] = x.Features[i].GetSequence() }) == ""
+	}
 	js, err := json.Marshal(x)
 	rep := map[string]any{"origin": origin, "json": clip(string(js), 6000)}
 	if err != nil {
@@ -347,6 +354,10 @@ func c15RoundTrip(w *mon.W, id string, x poly.Sequence, origin, tmp string, viaF
 			after = y.Features[i].GetSequence()
 		})
 		w.Add("feature_sequences_compared", 1)
+		if i < len(beforeOK) && beforeOK[i] && (pb != "" || before != beforeVals[i]) {
+			w.Violation(id, fmt.Sprintf("feature %d of the value that was serialised reported %q before the JSON round trip (%s) and reports %q %s afterwards: writing damaged the value it was given", i, clip(beforeVals[i], 50), origin, clip(before, 50), pb), rep)
+			return y, false
+		}
 		if pb != "" {
 			continue // the input itself cannot report its sequence: C02's subject
 		}
@@ -382,7 +393,7 @@ func runC15(w *mon.W) {
 			rec := gen.RandGBRecord(r, 1+r.Intn(800), 10, 300)
 			file := gen.WriteGB(rec, gen.RandLayout(r))
 			var g poly.Sequence
-			if p := mon.Try(func() { buf := []byte(file); g = genbank.Parse(buf); scribble(buf) }); p != "" {
+			if p := mon.Try(func() { buf := []byte(file); g = genbank.Parse(buf); unchangedThenScribble(w, id, "genbank.Parse", buf, file) }); p != "" {
 				w.Add("parse_panics_skipped", 1)
 				break
 			}
@@ -417,7 +428,7 @@ func runC15(w *mon.W) {
 				}
 			}
 			var g poly.Sequence
-			if p := mon.Try(func() { buf := []byte(lay); g = gff.Parse(buf); scribble(buf) }); p != "" {
+			if p := mon.Try(func() { buf := []byte(lay); g = gff.Parse(buf); unchangedThenScribble(w, id, "gff.Parse", buf, lay) }); p != "" {
 				w.Add("parse_panics_skipped", 1)
 				break
 			}
